@@ -42,7 +42,6 @@ Definition delivered (h : hub) (p : N) : bool :=
 Record HubInv (o : fmap bytes) (h : hub) : Prop := {
   hi_final : forall p b, h_final h p = Some b -> o p = Some b;
   hi_rcpt : forall p d c, h_rcpt h p = Some (d, c) -> exists b, o p = Some b /\ d = H b;
-  hi_comp : forall p d, rcpt_compacted h p = Some d -> h_final h p = None;
   hi_count : forall p, h_commits h p = h_removed h p + (if delivered h p then 1 else 0)
 }.
 
@@ -73,7 +72,6 @@ Proof.
     + intros q d c. unfold hub_record, fset; cbn. eqb_cases q p.
       * intros [= <- <-]. eauto.
       * apply HI.
-    + intros q d. rewrite Hrc. apply HI.
     + intro q. unfold delivered. rewrite Hrc. apply (hi_count _ _ HI).
   - intros q d. unfold hub_holds. rewrite Hrc. auto.
 Qed.
@@ -105,9 +103,6 @@ Proof.
       + intros [= <-]. exact Ho.
       + apply HI.
     - apply HI.
-    - intros q d E. unfold h1; cbn. unfold fset. eqb_cases q p.
-      + change (rcpt_compacted h p = Some d) in E. congruence.
-      + apply (hi_comp _ _ HI _ _ E).
     - intro q. unfold delivered, h1; cbn. change (rcpt_compacted _ q) with (rcpt_compacted h q).
       unfold cinc, fset. eqb_cases q p.
       + pose proof (hi_count _ _ HI p) as C. unfold delivered in C. rewrite Hf, Hnc in C. lia.
@@ -143,7 +138,8 @@ Proof.
   destruct (rcpt_compacted h p) as [d|] eqn:ERC.
   { destruct (bytes_eqb d (H b)) eqn:ED.
     - intros [= <- <-]. split; [exact HI|split; [reflexivity|split; [auto|]]]. intros _. apply bytes_eqb_eq in ED; subst.
-      unfold hub_holds. rewrite (hi_comp _ _ HI _ _ ERC), ERC. apply bytes_eqb_refl.
+      unfold hub_holds. rewrite ERC. destruct (h_final h p) as [fb|] eqn:EF; [|apply bytes_eqb_refl].
+      rewrite (hi_final _ _ HI _ _ EF) in Ho. inversion Ho; subst. apply bytes_eqb_refl.
     - intro E; apply (Triv _ E); split; discriminate. }
   destruct (h_final h p) as [fb|] eqn:EF.
   { destruct (bytes_eqb (H fb) (H b)) eqn:ED; [|intro E; apply (Triv _ E); split; discriminate].
@@ -192,7 +188,6 @@ Proof.
   - constructor.
     + apply HI.
     + intros q d c; cbn. unfold fset. eqb_cases q p; [discriminate|apply HI].
-    + intros q d. rewrite Hrc. apply HI.
     + intro q. unfold delivered. rewrite Hrc. apply (hi_count _ _ HI).
   - intro q; cbn. unfold fset. eqb_cases q p; auto.
   - intros X; cbn in X. rewrite fset_same in X. congruence.
@@ -234,7 +229,10 @@ Proof.
     unfold hub_classify. destruct (h_rcpt h' p) as [[d c]|] eqn:ER; [|discriminate].
     destruct (bytes_eqb d sha) eqn:ED; [intros _|discriminate].
     destruct c.
-    + apply rcpt_compacted_some in ER. unfold hub_holds. rewrite (hi_comp _ _ A _ _ ER), ER. exact ED.
+    + pose proof ER as ER0. apply rcpt_compacted_some in ER. unfold hub_holds. rewrite ER.
+      destruct (h_final h' p) as [fb|] eqn:EF; [|exact ED].
+      destruct (hi_rcpt _ _ A _ _ _ ER0) as (b' & Ob & ->).
+      rewrite (hi_final _ _ A _ _ EF) in Ob. inversion Ob; subst. exact ED.
     + assert (EC : rcpt_compacted h' p = None) by (unfold rcpt_compacted; rewrite ER; reflexivity).
       assert (NF : h_final h' p <> None) by (apply (F p Hin); congruence).
       destruct (h_final h' p) as [fb|] eqn:EF; [|congruence].
@@ -245,56 +243,66 @@ Qed.
 
 (* ---- hub-side environment events *)
 
-Lemma hub_compact_spec o h p fb d c :
-  HubInv o h -> h_final h p = Some fb -> h_rcpt h p = Some (d, c) ->
-  let h' := hub_set_final (hub_set_rcpt h (fset (h_rcpt h) p (Some (d, true)))) (fset (h_final h) p None) in
-  HubInv o h' /\ (forall q x, hub_holds H h q x = true -> hub_holds H h' q x = true).
+Lemma hub_mark_compacted_inv o h p :
+  HubInv o h ->
+  HubInv o (hub_mark_compacted h p) /\ h_removed (hub_mark_compacted h p) = h_removed h /\
+  (forall q x, hub_holds H h q x = true -> hub_holds H (hub_mark_compacted h p) q x = true).
 Proof.
-  intros HI EF ER h'.
+  intro HI. unfold hub_mark_compacted.
+  destruct (h_final h p) as [fb|] eqn:EF; [|auto].
+  destruct (h_rcpt h p) as [[d c]|] eqn:ER; [|auto].
+  set (h' := hub_set_rcpt h (fset (h_rcpt h) p (Some (d, true)))).
   assert (Hrc : forall q, rcpt_compacted h' q = if N.eqb q p then Some d else rcpt_compacted h q).
   { intro q. unfold rcpt_compacted, h'; cbn. unfold fset. destruct (N.eqb q p); reflexivity. }
-  assert (Hc0 : rcpt_compacted h p = None).
-  { destruct (rcpt_compacted h p) as [d0|] eqn:E; [|reflexivity]. rewrite (hi_comp _ _ HI _ _ E) in EF. discriminate. }
-  split.
+  split; [|split; [reflexivity|]].
   - constructor.
-    + intros q b. unfold h'; cbn. unfold fset. eqb_cases q p; [discriminate|apply HI].
+    + apply HI.
     + intros q d0 c0. unfold h'; cbn. unfold fset. eqb_cases q p.
       * intros [= <- <-]. apply (hi_rcpt _ _ HI _ _ _ ER).
       * apply HI.
-    + intros q d0. rewrite Hrc. unfold h'; cbn. unfold fset. eqb_cases q p; [reflexivity|apply HI].
-    + intro q. unfold delivered. rewrite Hrc. unfold h'; cbn. unfold fset.
+    + intro q. unfold delivered. rewrite Hrc. change (h_final h' q) with (h_final h q).
       pose proof (hi_count _ _ HI q) as C. unfold delivered in C. eqb_cases q p; [|exact C].
-      rewrite EF in C. exact C.
-  - intros q x. unfold hub_holds. rewrite Hrc. unfold h'; cbn. unfold fset. eqb_cases q p; [|auto].
-    rewrite EF. destruct (hi_rcpt _ _ HI _ _ _ ER) as (b' & Ob & ->).
+      rewrite EF in *. exact C.
+  - intros q x. unfold hub_holds. rewrite Hrc. change (h_final h' q) with (h_final h q).
+    eqb_cases q p; [|auto]. rewrite EF. auto.
+Qed.
+
+Lemma hub_delete_raw_inv o h p :
+  HubInv o h ->
+  HubInv o (hub_delete_raw h p) /\ h_removed (hub_delete_raw h p) = h_removed h /\
+  (forall q x, hub_holds H h q x = true -> hub_holds H (hub_delete_raw h p) q x = true).
+Proof.
+  intro HI. unfold hub_delete_raw.
+  destruct (h_final h p) as [fb|] eqn:EF; [|auto].
+  destruct (rcpt_compacted h p) as [d|] eqn:EC; [|auto].
+  set (h' := hub_set_final h (fset (h_final h) p None)).
+  split; [|split; [reflexivity|]].
+  - constructor.
+    + intros q b. unfold h'; cbn. unfold fset. eqb_cases q p; [discriminate|apply HI].
+    + apply HI.
+    + intro q. unfold delivered, h'; cbn. change (rcpt_compacted _ q) with (rcpt_compacted h q).
+      unfold fset. pose proof (hi_count _ _ HI q) as C. unfold delivered in C. eqb_cases q p; [|exact C].
+      rewrite EF in C. rewrite EC. exact C.
+  - intros q x. unfold hub_holds, h'; cbn. change (rcpt_compacted _ q) with (rcpt_compacted h q).
+    unfold fset. eqb_cases q p; [|auto]. rewrite EF, EC.
+    apply rcpt_compacted_some in EC. destruct (hi_rcpt _ _ HI _ _ _ EC) as (b' & Ob & ->).
     rewrite (hi_final _ _ HI _ _ EF) in Ob. inversion Ob; subst. auto.
 Qed.
 
-Lemma hub_compact_inv o h p :
+Lemma hub_remove_inv o h p :
   HubInv o h ->
-  HubInv o (hub_compact h p) /\ h_removed (hub_compact h p) = h_removed h /\
-  (forall q x, hub_holds H h q x = true -> hub_holds H (hub_compact h p) q x = true).
+  HubInv o (hub_remove h p) /\
+  (forall q x, hub_holds H h q x = true -> hub_holds H (hub_remove h p) q x = true \/ 0 < h_removed (hub_remove h p) q) /\
+  (forall q, h_removed h q <= h_removed (hub_remove h p) q).
 Proof.
-  intro HI. unfold hub_compact.
-  destruct (h_final h p) as [fb|] eqn:EF; [|auto].
-  destruct (h_rcpt h p) as [[d c]|] eqn:ER; [|auto].
-  destruct (hub_compact_spec o h p fb d c HI EF ER) as [A B]. auto.
-Qed.
-
-Lemma hub_remove_spec o h p fb :
-  HubInv o h -> h_final h p = Some fb ->
-  let h' := hub_set_removed (hub_set_final h (fset (h_final h) p None)) (cinc (h_removed h) p) in
-  HubInv o h' /\ (forall q x, hub_holds H h q x = true -> hub_holds H h' q x = true \/ 0 < h_removed h' q) /\
-  (forall q, h_removed h q <= h_removed h' q).
-Proof.
-  intros HI EF h'.
-  assert (Hc0 : rcpt_compacted h p = None).
-  { destruct (rcpt_compacted h p) as [d0|] eqn:E; [|reflexivity]. rewrite (hi_comp _ _ HI _ _ E) in EF. discriminate. }
+  intro HI. unfold hub_remove.
+  destruct (h_final h p) as [fb|] eqn:EF; [|split; [exact HI|split; [auto|intro; lia]]].
+  destruct (rcpt_compacted h p) as [d|] eqn:Hc0; [split; [exact HI|split; [auto|intro; lia]]|].
+  set (h' := hub_set_removed (hub_set_final h (fset (h_final h) p None)) (cinc (h_removed h) p)).
   split; [|split].
   - constructor.
     + intros q b. unfold h'; cbn. unfold fset. eqb_cases q p; [discriminate|apply HI].
     + apply HI.
-    + intros q d0 E. unfold h'; cbn. unfold fset. eqb_cases q p; [reflexivity|apply (hi_comp _ _ HI _ _ E)].
     + intro q. unfold delivered, h'; cbn. change (rcpt_compacted _ q) with (rcpt_compacted h q).
       unfold cinc, fset. pose proof (hi_count _ _ HI q) as C. unfold delivered in C. eqb_cases q p; [|exact C].
       rewrite EF in C. rewrite Hc0. lia.
@@ -601,13 +609,26 @@ Proof.
                  ((exists n, r = PCommitted n \/ r = PAlready n) -> hub_holds H h' (r_path e) (r_sha e) = true)).
   { intros x [= <- <-] Hx. split; [exact HI|split; [reflexivity|split; [auto|]]].
     intros [n [E|E]]; destruct (Hx n); congruence. }
-  destruct f as [m lost rf| | |d]; try (intro E; apply (Triv _ E); split; discriminate).
-  rewrite Sb, Zb.
-  destruct (receive H h (r_path e) (H b) (blen b) (r_sent e) (apply_mut m body) rf) as [h1 r1] eqn:ER.
-  destruct (receive_spec o h (r_path e) b _ _ _ _ _ HI Ob ER) as (A & B & C & D).
-  intros [= <- <-]. split; [exact A|split; [exact B|split; [exact C|]]].
-  intros [n X]. destruct lost; [destruct X; discriminate|]. apply D.
-  destruct r1; cbn in X; destruct X as [X|X]; try discriminate; eauto.
+  destruct f as [m lost rf|m mark lost2| | |d]; try (intro E; apply (Triv _ E); split; discriminate).
+  - rewrite Sb, Zb.
+    destruct (receive H h (r_path e) (H b) (blen b) (r_sent e) (apply_mut m body) rf) as [h1 r1] eqn:ER.
+    destruct (receive_spec o h (r_path e) b _ _ _ _ _ HI Ob ER) as (A & B & C & D).
+    intros [= <- <-]. split; [exact A|split; [exact B|split; [exact C|]]].
+    intros [n X]. destruct lost; [destruct X; discriminate|]. apply D.
+    destruct r1; cbn in X; destruct X as [X|X]; try discriminate; eauto.
+  - rewrite Sb, Zb.
+    destruct (receive H h (r_path e) (H b) (blen b) (r_sent e) (apply_mut m body) false) as [h1 r1] eqn:ER1.
+    destruct (receive_spec o h (r_path e) b _ _ _ _ _ HI Ob ER1) as (A1 & B1 & C1 & _).
+    set (h2 := if mark then hub_mark_compacted h1 (r_path e) else h1).
+    assert (H2 : HubInv o h2 /\ h_removed h2 = h_removed h1 /\
+                 (forall q x, hub_holds H h1 q x = true -> hub_holds H h2 q x = true)).
+    { unfold h2. destruct mark; [apply hub_mark_compacted_inv; exact A1|auto]. }
+    destruct H2 as (A2 & B2 & C2).
+    destruct (receive H h2 (r_path e) (H b) (blen b) (r_sent e) body false) as [h3 r3] eqn:ER3.
+    destruct (receive_spec o h2 (r_path e) b _ _ _ _ _ A2 Ob ER3) as (A3 & B3 & C3 & D3).
+    intros [= <- <-]. split; [exact A3|split; [congruence|split; [intros q x X; apply C3, C2, C1, X|]]].
+    intros [n X]. destruct lost2; [destruct X; discriminate|]. apply D3.
+    destruct r3; cbn in X; destruct X as [X|X]; try discriminate; eauto.
 Qed.
 
 Lemma held_row_mono h h' r :
@@ -916,7 +937,7 @@ Qed.
 
 Lemma hubinv_extend o h p b : o p = None -> HubInv o h -> HubInv (fset o p (Some b)) h.
 Proof.
-  intros On [A B C D]. constructor; auto.
+  intros On [A B D]. constructor; auto.
   - intros q x E. unfold fset. eqb_cases q p; [rewrite (A _ _ E) in On; discriminate|auto].
   - intros q d c E. destruct (B _ _ _ E) as (x & Ox & Dx). exists x. split; [|exact Dx].
     unfold fset. eqb_cases q p; [congruence|exact Ox].
@@ -924,7 +945,7 @@ Qed.
 
 Lemma apply_event_inv pt maxa w e : Inv w -> Inv (apply_event H pt maxa w e).
 Proof.
-  intro A. destruct e as [p b|p| | | |p|p|sc]; cbn [apply_event].
+  intro A. destruct e as [p b|p| | | |p|p|p|sc]; cbn [apply_event].
   - (* ECreate *)
     destruct (w_origin w p) eqn:EO; [exact A|].
     destruct A as [A1 A2 A3 A4 A5 A6]. constructor; cbn; auto.
@@ -949,13 +970,16 @@ Proof.
     + intro r. destruct (lstate_eqb _ _); cbn; auto.
     + intro r. destruct (lstate_eqb (r_state r) Failed) eqn:E1; [|auto].
       apply lstate_eqb_eq in E1. right. cbn. rewrite E1. split; [discriminate|reflexivity].
-  - (* EHubCompact *)
-    destruct (hub_compact_inv _ _ p (i_hub _ A)) as (HI & Hr & Hm).
+  - (* EHubMarkCompacted *)
+    destruct (hub_mark_compacted_inv _ _ p (i_hub _ A)) as (HI & Hr & Hm).
+    destruct A as [A1 A2 A3 A4 A5 A6]. constructor; cbn; auto.
+    eapply Forall_impl; [|exact A6]. intros r Hh. eapply held_row_mono; eauto.
+  - (* EHubDeleteRaw *)
+    destruct (hub_delete_raw_inv _ _ p (i_hub _ A)) as (HI & Hr & Hm).
     destruct A as [A1 A2 A3 A4 A5 A6]. constructor; cbn; auto.
     eapply Forall_impl; [|exact A6]. intros r Hh. eapply held_row_mono; eauto.
   - (* EHubRemove *)
-    destruct (h_final (w_hub w) p) as [fb|] eqn:EF; [|exact A].
-    destruct (hub_remove_spec _ _ _ _ (i_hub _ A) EF) as (HI & Hm & Hr).
+    destruct (hub_remove_inv _ _ p (i_hub _ A)) as (HI & Hm & Hr).
     destruct A as [A1 A2 A3 A4 A5 A6]. constructor; cbn; auto.
     eapply Forall_impl; [|exact A6]. intros r Hh Hs. destruct (Hh Hs) as [X|X].
     + apply Hm. exact X.
@@ -994,9 +1018,17 @@ Qed.
 
 Lemma put_file_removed f h e body : h_removed (fst (put_file H f h e body)) = h_removed h.
 Proof.
-  destruct f as [m lost rf| | |d]; cbn; try reflexivity.
-  pose proof (receive_removed h (r_path e) (r_sha e) (r_size e) (r_sent e) (apply_mut m body) rf) as X.
-  destruct (receive H h _ _ _ _ _ rf). exact X.
+  destruct f as [m lost rf|m mark lost2| | |d]; cbn; try reflexivity.
+  - pose proof (receive_removed h (r_path e) (r_sha e) (r_size e) (r_sent e) (apply_mut m body) rf) as X.
+    destruct (receive H h _ _ _ _ _ rf). exact X.
+  - pose proof (receive_removed h (r_path e) (r_sha e) (r_size e) (r_sent e) (apply_mut m body) false) as X1.
+    destruct (receive H h _ _ _ _ _ false) as [h1 r1]. cbn in X1.
+    set (h2 := if mark then hub_mark_compacted h1 (r_path e) else h1).
+    assert (X2 : h_removed h2 = h_removed h1).
+    { unfold h2, hub_mark_compacted. destruct mark; [|reflexivity].
+      destruct (h_final h1 (r_path e)); [destruct (h_rcpt h1 (r_path e)) as [[d c]|]|]; reflexivity. }
+    pose proof (receive_removed h2 (r_path e) (r_sha e) (r_size e) (r_sent e) body false) as X3.
+    destruct (receive H h2 _ _ _ _ _ false) as [h3 r3]. cbn in *. congruence.
 Qed.
 
 Lemma forget_stale_removed paths : forall h, h_removed (hub_forget_stale h paths) = h_removed h.
@@ -1073,14 +1105,16 @@ Lemma apply_event_removed pt maxa w e p :
   h_removed (w_hub (apply_event H pt maxa w e)) p <=
   h_removed (w_hub w) p + (match e with EHubRemove q => if N.eqb q p then 1 else 0 | _ => 0 end).
 Proof.
-  destruct e as [q b|q| | | |q|q|sc]; cbn [apply_event].
+  destruct e as [q b|q| | | |q|q|q|sc]; cbn [apply_event].
   - destruct (w_origin w q); cbn; lia.
   - cbn; lia.
   - cbn; lia.
   - cbn; lia.
   - cbn; lia.
-  - cbn. unfold hub_compact. destruct (h_final (w_hub w) q); [destruct (h_rcpt (w_hub w) q) as [[d c]|]|]; cbn; lia.
-  - destruct (h_final (w_hub w) q); cbn; [|destruct (N.eqb q p); lia].
+  - cbn. unfold hub_mark_compacted. destruct (h_final (w_hub w) q); [destruct (h_rcpt (w_hub w) q) as [[d c]|]|]; cbn; lia.
+  - cbn. unfold hub_delete_raw. destruct (h_final (w_hub w) q); [destruct (rcpt_compacted (w_hub w) q)|]; cbn; lia.
+  - cbn. unfold hub_remove. destruct (h_final (w_hub w) q); [destruct (rcpt_compacted (w_hub w) q)|]; cbn;
+      try (destruct (N.eqb q p); lia).
     unfold cinc. rewrite (N.eqb_sym q p). destruct (N.eqb p q); lia.
   - set (c := {| c_crash := s_crash sc; c_puts := s_puts sc; c_rec := s_rec sc; c_maxa := maxa |}).
     destruct (agent_run H pt (w, c)) as [[w' c'] r] eqn:ER. cbn.
@@ -1095,7 +1129,7 @@ Proof.
   induction evs as [|e t IH]; intros w p; cbn [fold_left]; [cbn; lia|].
   specialize (IH (apply_event H pt maxa w e) p).
   pose proof (apply_event_removed pt maxa w e p) as X.
-  cbn [filter]. destruct e as [q b|q| | | |q|q|sc]; try (cbn [length] in *; lia).
+  cbn [filter]. destruct e as [q b|q| | | |q|q|q|sc]; try (cbn [length] in *; lia).
   destruct (N.eqb q p); cbn [length] in *; lia.
 Qed.
 
@@ -1109,9 +1143,8 @@ Lemma apply_event_origin pt maxa w e :
   | _ => w_origin w
   end.
 Proof.
-  intro A. destruct e as [q b|q| | | |q|q|sc]; cbn [apply_event]; try reflexivity.
+  intro A. destruct e as [q b|q| | | |q|q|q|sc]; cbn [apply_event]; try reflexivity.
   - destruct (w_origin w q); reflexivity.
-  - destruct (h_final (w_hub w) q); reflexivity.
   - set (c := {| c_crash := s_crash sc; c_puts := s_puts sc; c_rec := s_rec sc; c_maxa := maxa |}).
     destruct (agent_run H pt (w, c)) as [[w' c'] r] eqn:ER. cbn.
     pose proof (agent_run_ok pt (w_origin w) (w_files w) w c w' c' r) as X.
@@ -1127,7 +1160,7 @@ Proof.
   unfold run_history. induction evs as [|e t IH]; intros w p A; cbn [fold_left created].
   - destruct (w_origin w p); reflexivity.
   - rewrite (IH _ p (apply_event_inv pt maxa w e A)). rewrite (apply_event_origin pt maxa w e A).
-    destruct e as [q b|q| | | |q|q|sc]; try reflexivity.
+    destruct e as [q b|q| | | |q|q|q|sc]; try reflexivity.
     destruct (w_origin w q) eqn:EQ.
     + eqb_cases q p; [rewrite EQ; reflexivity|reflexivity].
     + unfold fset. rewrite (N.eqb_sym q p). eqb_cases p q; [rewrite EQ; reflexivity|reflexivity].
@@ -1767,14 +1800,15 @@ End NoDupFrame.
 Lemma apply_event_nodup pt maxa w e :
   NoDup (paths (w_led w)) -> NoDup (paths (w_led (apply_event H pt maxa w e))).
 Proof.
-  intro ND. destruct e as [q b|q| | | |q|q|sc]; cbn [apply_event].
+  intro ND. destruct e as [q b|q| | | |q|q|q|sc]; cbn [apply_event].
   - destruct (w_origin w q); auto.
   - auto.
   - cbn. apply NoDup_paths_filter. exact ND.
   - cbn. unfold paths in *. rewrite map_map. erewrite map_ext; [exact ND|]. intro r. destruct (_ || _); reflexivity.
   - cbn. unfold paths in *. rewrite map_map. erewrite map_ext; [exact ND|]. intro r. destruct (lstate_eqb _ _); reflexivity.
   - auto.
-  - destruct (h_final (w_hub w) q); auto.
+  - auto.
+  - auto.
   - set (c := {| c_crash := s_crash sc; c_puts := s_puts sc; c_rec := s_rec sc; c_maxa := maxa |}).
     destruct (agent_run H pt (w, c)) as [[w' c'] r] eqn:ER. cbn.
     pose proof (agent_run_frn pt w c w' c' r ND ER) as X. destruct r; exact X.
